@@ -52,6 +52,13 @@ var c07Recipes = []c07Recipe{
 				k(jen.Qual("a/f", "X")): jen.Lit(1), k(jen.Qual("b/f", "X")): jen.Lit(2), k(jen.Qual("c/f", "X")): jen.Lit(3)})
 		})
 	}},
+	{"dict-qual-keys-anonymous-before", func(k func(jen.Code) jen.Code) jh.Outcome {
+		return c07File(false, func(f *jen.File) {
+			f.Anon("a/f", "b/f", "d/f")
+			f.Var().Id("x").Op("=").Map(jen.Int()).Int().Values(jen.Dict{
+				k(jen.Qual("a/f", "X")): jen.Lit(1), k(jen.Qual("b/f", "X")): jen.Lit(1), k(jen.Qual("c/f", "X")): jen.Qual("d/f", "V")})
+		})
+	}},
 	{"dict-qual-values-colliding", func(k func(jen.Code) jen.Code) jh.Outcome {
 		return c07File(false, func(f *jen.File) {
 			f.Var().Id("x").Op("=").Map(jen.Int()).Int().Values(jen.Dict{
@@ -109,6 +116,18 @@ var c07Recipes = []c07Recipe{
 		return c07File(false, func(f *jen.File) {
 			f.ImportNames(map[string]string{"a/f": "f", "b/f": "f", "c/g": "g", "d/h": "h"})
 			f.Var().Id("_").Op("=").List(jen.Qual("b/f", "X"), jen.Qual("a/f", "X"), jen.Qual("c/g", "X"), jen.Qual("x/f", "X"))
+		})
+	}},
+	{"importnames-vendored-copies", func(k func(jen.Code) jen.Code) jh.Outcome {
+		return c07File(false, func(f *jen.File) {
+			f.ImportNames(map[string]string{"github.com/pkg/log": "log", "a/vendor/github.com/pkg/log": "logger", "b/vendor/github.com/pkg/log": "vlog", "github.com/pkg/Log": "biglog"})
+			f.Var().Id("_").Op("=").List(jen.Qual("github.com/pkg/log", "X"), jen.Qual("a/vendor/github.com/pkg/log", "X"), jen.Qual("b/vendor/github.com/pkg/log", "X"), jen.Qual("github.com/pkg/Log", "X"))
+		})
+	}},
+	{"fragment-group-with-colliding-names", func(k func(jen.Code) jen.Code) jh.Outcome {
+		return jh.Catch(func() (string, error) {
+			s := jen.Qual("a/f", "X").Call(jen.Qual("b/f", "Y"), jen.Lit("s"))
+			return s.GoString(), nil
 		})
 	}},
 	{"imports-5-mixed", func(k func(jen.Code) jen.Code) jh.Outcome {
@@ -321,7 +340,7 @@ func runC07(r *ev.Recorder) {
 	r.Rule = fmt.Sprintf("%d recipes (fresh objects per execution: Dicts with colliding / equal-text / null keys and values, nested Dicts, Tags, ImportNames tables, import sets with anon/aliased/std/cgo entries, NoFormat, prefix, fragments). "+
 		"The instrumenter rewrote every `range` over a map in the current jennifer sources; at every DYNAMIC execution of such a range the explorer chooses the iteration order: all n! permutations (n <= 4; identity, reverse and rotations above), "+
 		"with at most %d range executions deviating from canonical order per run, plus uniform runs (every range reversed; rotated by 1..3) and runs under the runtime's native order (in-process and in 2 fresh processes). "+
-		"Oracle: exactly one distinct outcome (bytes or error) per recipe. states = executions (one per environment schedule), transitions = dynamic range executions answered; distinct_nontrivial = executions with at least one deviating range (each has a distinct order vector by construction of the explorer)", len(c07Recipes), dev)
+		"plus a history pass in the parent process (every recipe again, forwards and backwards, between failing and succeeding renders of other Files and fragments with the same base names). Oracle: exactly one distinct outcome (bytes or error) per recipe. states = executions (one per environment schedule), transitions = dynamic range executions answered; distinct_nontrivial = executions with at least one deviating range (each has a distinct order vector by construction of the explorer)", len(c07Recipes), dev)
 	r.Assume = []string{"the Go specification leaves map iteration order unspecified, so every permutation is a legitimate runtime behaviour",
 		"keys of maps are ranked canonically by string value, or for Code keys by creation order in the recipe",
 		"maps with more than 4 entries get identity, reverse and rotations only"}
@@ -363,6 +382,36 @@ func runC07(r *ev.Recorder) {
 		}
 		wg.Wait()
 	}
+	// history independence within this process: after a prelude of failing and succeeding renders
+	// (Files and fragments that use the same base names), every recipe must still render its
+	// canonical output, in forward and in reverse order
+	poison := func() {
+		jh.RenderFile(func() *jen.File { f := jen.NewFile("x"); f.Var().Id("v").Op("=").Qual("z/f", "X").Op("{"); return f }())
+		jh.Catch(func() (string, error) { return jen.Qual("y/f", "X").Op("{").Lit(1).GoString(), nil })
+		jh.Catch(func() (string, error) { return jen.Qual("w/f", "X").Call().GoString(), nil })
+		jh.Catch(func() (string, error) {
+			return jen.Id("T").Values(jen.Dict{jen.Qual("v/f", "K"): jen.Op(")")}).GoString(), nil
+		})
+	}
+	for pass := 0; pass < 2; pass++ {
+		poison()
+		for i := range c07Recipes {
+			ri := i
+			if pass == 1 {
+				ri = len(c07Recipes) - 1 - i
+			}
+			rc := c07Recipes[ri]
+			o := rc.build(func(c jen.Code) jen.Code { return c })
+			results[ri].Executions++
+			if h := c07Hash(o); h != results[ri].Canonical {
+				if _, ok := results[ri].Outcomes[h]; !ok {
+					results[ri].Outcomes[h] = c07Case{Recipe: rc.name, Policy: "after-other-renders"}
+					results[ri].Outputs[h] = o.String()
+				}
+			}
+			poison()
+		}
+	}
 	var total, ranges int64
 	allSites := map[string]int{}
 	unc := map[string]int{}
@@ -400,7 +449,7 @@ func runC07(r *ev.Recorder) {
 					cs = res.Outcomes[h]
 				}
 			}
-			r.Violate(ev.Violation{Signature: "c07:" + res.Recipe, What: fmt.Sprintf("recipe %s has %d distinct outputs depending on map iteration order (e.g. under %+v)", res.Recipe, len(res.Outcomes), cs),
+			r.Violate(ev.Violation{Signature: "c07:" + res.Recipe, What: fmt.Sprintf("recipe %s has %d distinct outputs depending on map iteration order or on what was rendered before (e.g. under %+v)", res.Recipe, len(res.Outcomes), cs),
 				Case: ev.JSON(cs), Detail: detail.String()})
 		}
 	}
@@ -432,6 +481,8 @@ func replayC07(raw json.RawMessage) (bool, string) {
 		canonical, _ := c07Run(rc, nil)
 		var o jh.Outcome
 		switch {
+		case c.Policy == "after-other-renders":
+			return true, "the history-independence pass is replayed by running the check"
 		case c.Policy == "native" || c.Policy == "native-process":
 			for i := 0; i < 50; i++ {
 				o = rc.build(func(c jen.Code) jen.Code { return c })
